@@ -448,8 +448,14 @@ class OpGen:
         else:
             dv = rng.choice([True, False])
             provide = rng.random() < 0.5
+            value = rng.choice([True, False])
+            if provide and rng.random() < 0.3:
+                # explicit null for a nullable variable with a default, used for the non-null `if`:
+                # collecting the fields fails (root: request rejected; nested: error of the enclosing field)
+                value = None
+                self.features.add("dir-null-variable")
             self.vars[name] = {"type": "Boolean", "default": "true" if dv else "false", "base": "Boolean",
-                               "dir_ok": True, "provide": provide, "value": rng.choice([True, False])}
+                               "dir_ok": True, "provide": provide, "value": value}
         return name
 
     def arg_var(self, a):
@@ -466,6 +472,9 @@ class OpGen:
             d = {"type": base + "!", "default": None, "provide": True}
         elif mode == "default":
             d = {"type": base, "default": self.literal(base, self.raw_input(base)), "provide": rng.random() < 0.5}
+            if d["provide"] and rng.random() < 0.2:
+                value = None                        # explicit null: a field error when the argument is non-null
+                self.features.add("arg-null-variable")
         else:
             # nullable without default: may be left out (argument then absent / argument default)
             d = {"type": base, "default": None, "provide": rng.random() < 0.6}
